@@ -145,7 +145,7 @@ func (f *FuncInfo) Lits() []*FuncInfo { return f.lits }
 func (p *Prog) FuncsInPkg(rel string) []*FuncInfo {
 	var out []*FuncInfo
 	for _, f := range p.Funcs() {
-		if RelPkg(f.Pkg.PkgPath) == rel {
+		if RelPkg(f.Pkg.PkgPath) == rel && f.Obj != nil {
 			out = append(out, f)
 		}
 	}
